@@ -1,14 +1,14 @@
 SPECIFICATION Spec
 CONSTANTS
-  Targets <- T2
-  Sensors <- S3
-  InitTargets <- T2
-  InitSensors <- S3
+  Targets <- T1
+  Sensors <- S1
+  InitTargets <- T1
+  InitSensors <- S1
   Engines <- E1
   EngTargets <- AllT
   EngSensors <- AllS
-  Policy <- PolRandom
-  NSteps = 1
+  Policy <- PolGreedy
+  NSteps = 2
   Dt = 1
   OutDt = 1
   Events <- NoEvents
@@ -21,7 +21,7 @@ CONSTANTS
   PriorityToAllEngines = FALSE
   PruneKeepsEqual = FALSE
   PartialCommit = FALSE
-  UpdateTouchesTruth = FALSE
+  UpdateTouchesTruth = TRUE
 INVARIANT OneRecordPerTasking
 INVARIANT NoRecordWithoutTasking
 INVARIANT PointingReflectsTasking
